@@ -78,16 +78,28 @@ ASSUMPTIONS = [
 ]
 
 CTRL = 2121
+MAX_ACTIONS = 120  # no generator comes near; a retry loop that never ends is cut here (and reported by the retry oracle)
 BASE = 30001
 PCONNECT, PASV, RESUME, WORK, END, CLOSEALL = range(6)
 OUTCOME = {"ok": 0, "inuse": 1, "other": 2}
 
 
-def fin_from_gen():
-    txt = (core.COQ / "Gen" / "Dispatch.v").read_text()
+# the two statements of the dispatcher's finally block the model interprets, as the current source has them; used
+# ONLY when the translator could not read the source (a broken obligation by itself): the implementation is still
+# run against the model of the unchanged code and the oracle, so that a concrete failing input can be found
+FALLBACK_FIN = ["loop_open,has:passive_server=>close:passive_server", "loop_open,has:passive_server,ports=>putport:0:passive_server_port"]
+
+
+def fin_from_gen(ctx=None):
+    try:
+        txt = (core.COQ / "Gen" / "Dispatch.v").read_text()
+    except OSError:
+        txt = ""
     m = re.search(r"d_finally := \[(.*?)\];", txt, re.S)
     if not m:
-        raise RuntimeError("d_finally not found in Gen/Dispatch.v")
+        if ctx is not None:
+            ctx.obligation_broken("Gen.Dispatch.d_finally", "the translator did not produce the dispatcher's finally block; model run with the unchanged block")
+        return list(FALLBACK_FIN)
     return re.findall(r'"((?:[^"]|"")*)"', m.group(1))
 
 
@@ -121,6 +133,7 @@ class Driver:
         self.events = []  # model events
         self.snaps = []  # real snapshots, one per action
         self.actions = []
+        self.notes = []  # (key suffix, text): oracle failures other than the multiset equation, per action
         self.excused = []  # ports whose loss by the current action falls under a known-finding key
 
     async def start(self):
@@ -192,6 +205,16 @@ class Driver:
         want = collections.Counter(self.ports)
         return want - have, have - want
 
+    def check_421(self, i, tried):
+        """exhaustion oracle: 421 'no free ports' is given only when no port of the pool is known free: every
+        port in the pool that this PASV did not try itself has failed a bind since a session last returned it
+        (priority >= 1).  `tried` also holds the ports the session's own end has just returned (priority 0).
+        (Demanding 'every port was tried by THIS PASV' would be more than the property states and is false on the
+        unchanged code: pool [(0,A),(1,B)], A busy -> (1,A) is the least item, already viewed -> 421, B untried.)"""
+        untried = sorted(p for (prio, p) in self.server.available_data_ports._queue if p not in tried and prio == 0)
+        if untried:
+            self.notes.append(("421-with-free-port", f"session {i}: 421 after trying {tried} while {untried} sat in the pool, never found busy, untried"))
+
     # -- actions
     def valid_actions(self, max_sessions, rich=True):
         acts = []
@@ -246,7 +269,11 @@ class Driver:
                 self.raws[i].writer.write(a[2].encode() + b"\r\n")
                 new = await self.settle_and_collect()
                 codes = final_codes(self.raws[i].take())
+                for e in new:
+                    e["tried"] = [e["port"]]
                 self.inflight[i] += new
+                if "421" in codes and not others:
+                    self.check_421(i, [])
                 if not self.live(i):
                     # 421: the session ended; start-ups still in flight were cancelled by the finally block
                     if others:
@@ -274,16 +301,23 @@ class Driver:
                         self.excused = [self.passive_port(c)]  # the listener about to be overwritten
                 others = [x["stage"] for j, x in enumerate(self.inflight[i]) if j != k]
                 oports = [x["port"] for j, x in enumerate(self.inflight[i]) if j != k]
+                c0 = self.conn_of(self.raws[i])
+                own = oports + ([self.passive_port(c0)] if c0 is not None and self.passive_port(c0) is not None else [])
                 e["fut"].set_result(None)
                 new = await self.settle_and_collect()
                 codes = final_codes(self.raws[i].take())
+                if "421" in codes and e["stage"] == 1:
+                    self.check_421(i, e.get("tried", [e["port"]]) + own)  # `own`: returned by the session's own end
                 if not self.live(i):
                     if others:  # the session died (421 / OSError): its other start-ups were cancelled
                         cause = "cancel-at-2" if 2 in others else "cancel-at-1"
                         self.excused = oports
                     self.inflight[i] = []
                 elif new:
+                    new[0]["tried"] = e.get("tried", [e["port"]]) + ([new[0]["port"]] if new[0]["stage"] == 1 else [])
                     self.inflight[i][k] = new[0]
+                    if len(new[0]["tried"]) > len(self.ports) + 1:
+                        self.notes.append(("retry-unbounded", f"one PASV tried {new[0]['tried']} (configured {self.ports})"))
                 else:
                     del self.inflight[i][k]
         elif kind == "work":
@@ -339,6 +373,8 @@ class Driver:
         obs["cause"] = cause
         obs["excused"] = sorted(self.excused)
         self.excused = []
+        obs["notes"] = self.notes
+        self.notes = []
         self.actions.append(list(a))
         self.snaps.append(obs)
         return obs
@@ -366,7 +402,7 @@ def run_history(ports, chooser):
         d = Driver(net, ports)
         box["d"] = d
         await d.start()
-        while True:
+        while len(d.actions) < MAX_ACTIONS:
             a = chooser(d)
             if a is None:
                 break
@@ -462,6 +498,9 @@ def check_driver(ctx, d, msnaps, stream):
                     f"(pool {real['pool']}, configured {d.ports}) after {d.actions[: k + 1]}",
                     dict(replay, key="c11-lost-" + str(d.actions[k][0]), upto=k + 1),
                 )
+        for kind, text in real.get("notes", []):
+            ok = False
+            ctx.violation(f"{text} after {d.actions[: k + 1]}", dict(replay, key="c11-" + kind, upto=k + 1))
         prev_missing = missing
         prev_orphans = list(real["orphans"])
     if len(msnaps) != len(d.snaps):
@@ -632,7 +671,7 @@ WITNESSES = {
 def correspondence(ctx, budget=None):
     rng = ctx.rng
     thorough = ctx.tier == "thorough"
-    fin = fin_from_gen()
+    fin = fin_from_gen(ctx)
     hier = hier_from_source()
     ctx.extra["rule"] = (
         "every bind of a data port is gated at both suspension points and resumed by the harness with a chosen outcome; actions: "
@@ -826,10 +865,19 @@ def replay(ctx, data):
     if "actions" not in r:
         print("replay payload:", json.dumps(data)[:2000])
         return False
-    d = run_history(r["ports"], scripted([tuple(a) for a in r["actions"]]))
+    # a recorded violation names the action that lost / duplicated / orphaned something (`upto`): the verdict is
+    # about THAT action (later actions of the same history may hit a listed finding); a witness file has no `upto`
+    upto = r.get("upto")
+    actions = [tuple(a) for a in r["actions"]]
+    d = run_history(r["ports"], scripted(actions[:upto] if upto else actions))
     bad = False
-    for a, s in zip(d.actions, d.snaps):
+    prev = {"missing": [], "extra": [], "orphans": []}
+    for k, (a, s) in enumerate(zip(d.actions, d.snaps)):
         print(f"after {a}: pool={s['pool']} sessions={s['sessions']} orphans={s['orphans']} missing={s['missing']} extra={s['extra']}")
-        if s["missing"] or s["extra"] or s["orphans"]:
+        changed = any(collections.Counter(s[x]) - collections.Counter(prev[x]) for x in ("missing", "extra", "orphans")) or bool(s.get("notes"))
+        if s.get("notes"):
+            print("   oracle:", s["notes"])
+        if changed and (upto is None or k == upto - 1):
             bad = True
+        prev = s
     return not bad
